@@ -668,7 +668,18 @@ def check_collocate_cases(ctx, cases):
         orig = col._create_return
 
         def wrap(*a, _orig=orig, _rec=rec, **k):
-            _rec["raw"] = np.array(a[4]).astype(int).copy()
+            raw = np.array(a[4]).astype(int).copy()
+            # `original_pairs` index the datasets handed to _create_return, i.e. the points after collocate's own
+            # preparation (selection of the common period, sorting by time); the `id` variable those datasets carry
+            # names the points of the input, so the raw pairs are expressed in input positions through it
+            try:
+                pid = np.asarray(a[0]["id"].values).astype(int).ravel()
+                sid = np.asarray(a[1]["id"].values).astype(int).ravel()
+                if raw.size:
+                    raw = np.vstack([pid[raw[0]], sid[raw[1]]])
+            except Exception:  # noqa
+                pass
+            _rec["raw"] = raw
             return _orig(*a, **k)
         col._create_return = wrap
         kw = {"max_distance": "30 km"}
